@@ -100,8 +100,11 @@ def world2pixel_single_axis(wcs, *world, pixel_axis=None):
     world_new = []
 
     # Now find all the world coordinates that are needed to calculate this
-    # world coordinate, using the axis correlation matrix
-    world_dep = wcs.axis_correlation_matrix[:, pixel_axis]
+    # pixel coordinate, using the axis correlation matrix. Note that the
+    # matrix describes which world coordinates depend on which pixel
+    # coordinates - for the inverse transformation we need all the world
+    # coordinates that are connected (possibly indirectly) to this pixel axis.
+    _, world_dep = _connected_axes(wcs.axis_correlation_matrix, pixel=[pixel_axis])
 
     for iw, w in enumerate(world):
         if world_dep[iw]:
@@ -171,8 +174,35 @@ def dependent_axes(wcs, axis):
     if isinstance(wcs, LegacyCoordinates):
         return (axis,)
     matrix = wcs.axis_correlation_matrix[::-1, ::-1]
-    world_dep = matrix[:, axis:axis + 1]
-    return tuple(np.nonzero((world_dep & matrix).any(axis=0))[0])
+    # The same index is used for pixel and world axes throughout glue, so we
+    # consider all the axes connected (possibly indirectly) to either the
+    # pixel or the world axis with this index.
+    n_world, n_pixel = matrix.shape
+    pixel_dep, world_dep = _connected_axes(matrix,
+                                           pixel=[axis] if axis < n_pixel else [],
+                                           world=[axis] if axis < n_world else [])
+    return tuple(sorted(set(np.nonzero(pixel_dep)[0]) | set(np.nonzero(world_dep)[0])))
+
+
+def _connected_axes(matrix, pixel=(), world=()):
+    """
+    Given an axis correlation matrix (with shape ``(n_world, n_pixel)``) and
+    lists of pixel and world axes, find all the pixel and world axes that are
+    connected to these, directly or via other axes. Returns boolean arrays for
+    the pixel and world axes.
+    """
+    matrix = np.asarray(matrix, dtype=bool)
+    n_world, n_pixel = matrix.shape
+    pixel_dep = np.zeros(n_pixel, dtype=bool)
+    world_dep = np.zeros(n_world, dtype=bool)
+    pixel_dep[list(pixel)] = True
+    world_dep[list(world)] = True
+    while True:
+        new_world_dep = world_dep | matrix[:, pixel_dep].any(axis=1)
+        new_pixel_dep = pixel_dep | matrix[new_world_dep, :].any(axis=0)
+        if np.all(new_world_dep == world_dep) and np.all(new_pixel_dep == pixel_dep):
+            return pixel_dep, world_dep
+        pixel_dep, world_dep = new_pixel_dep, new_world_dep
 
 
 def _get_ndim(header):
